@@ -19,7 +19,7 @@ class NotCondition:
         self._condition = condition
 
     def __str__(self):
-        return f"not ({self._condition})"
+        return f"({self._condition}) IS NOT TRUE"
 
 
 class AbstractQuery(c.AbstractCondition, ABC):
